@@ -119,6 +119,13 @@ class C01(Property):
             for salt in partial_collision_salts(rng, n, lo, hi):
                 for kind in ("ping", "pong", "peng"):
                     out.append("im_parse %s 1 1 - - 1 %s" % (wellformed_init_body(rng, kind).hex(), salt.hex()))
+        # what a party without ANY key can fabricate: a well-formed message whose key hint matches no trusted key and whose signature
+        # field holds the identity point and a zero scalar (it verifies under a small-order public key - e.g. an all-zero one - for
+        # about one message in four; the varying unknown part plays the counter).  Must be rejected, every time.
+        for i in range(200 if thorough else 48):
+            for kind in (("ping", "pong", "peng") if i % 8 == 0 else ("ping",)):
+                body = wellformed_init_body(rng, kind)[:-1] + bytes([0x7f, 0, 2, i >> 8, i & 0xff]) + b"\x00"
+                out.append("im_parse %s Z 0 - - 1" % body.hex())
         # node level: bit flips at every byte position of genuine ping / pong / peng presented to a FULL node in the states
         # unknown sender / pending / established (shared with C08): no peer, no pending entry, no reply, nothing altered
         out += c08mod.every_position_lines(rng, thorough, ["unknown", "pending_initiator", "pending_responder"] + (["established"] if thorough else []))
@@ -216,6 +223,11 @@ class C01(Property):
     def oracle(self, line, impl_out):
         if line.startswith("pubkey "):
             return None if impl_out == "ok " + PUB[int(line.split()[1])] else "harness key pair changed: update PUB in py/props/c01.py"
+        if line.startswith("im_parse ") and line.split()[2] == "Z":
+            if impl_out.startswith("ok "):
+                return ("a handshake message made WITHOUT any key (key hint of no trusted key, signature field = identity point and zero scalar) "
+                        "was accepted as verified: " + impl_out[:60])
+            return None
         if line.startswith("im_parse "):
             if not impl_out.startswith("ok "):
                 return ("a genuine handshake message signed with a trusted key (second in the receiver's list) is rejected (%s) for key-hash "
